@@ -3,7 +3,8 @@
 Copies a confirmed seeded change into /verif/seeded/<property>-<X>/ with meta.json."""
 import json, os, shutil, sys, re
 wt, x, prop, confirm_log, results_log = sys.argv[1:6]
-dst = f"/verif/seeded/{prop}-{x}"
+store_as = sys.argv[6] if len(sys.argv) > 6 else x
+dst = f"/verif/seeded/{prop}-{store_as}"
 os.makedirs(dst, exist_ok=True)
 shutil.copy(f"{wt}/OUT/{x}.patch", f"{dst}/patch.diff")
 shutil.copy(f"{wt}/OUT/{x}_demo.rs", f"{dst}/demo.rs")
@@ -25,7 +26,7 @@ for line in notes.splitlines():
         needs += line.strip() + " "
 meta = {
     "property": prop,
-    "variant": x,
+    "variant": store_as,
     "base_commit": os.popen("git -C /repo rev-parse --short HEAD").read().strip(),
     "written_by": "independent sub-agent given only the property text and a scratch worktree",
     "needs_to_manifest": needs.strip()[:1200],
